@@ -241,3 +241,32 @@ Proof.
   split; [intros; apply new_refines; assumption|].
   split; [intros; apply acquire_refines; assumption|intros; apply release_refines; assumption].
 Qed.
+
+(* ---------------- ownership discipline facts ---------------- *)
+Lemma own_facts_ok : forallb (fun f => disc_ok (of_events f)) own_facts = true.
+Proof. vm_compute. reflexivity. Qed.
+
+(* the order of buffer events in the model's code (read off Model.v: core_write, json_encode_entry,
+   console_encode_entry, write_context, putJSONEncoder, full_path (both callers), log_call,
+   take_stack) is the order regenerated from the source *)
+Definition model_own_events : list (string * list bev) :=
+  [("ioCore.Write", [BUse; BFree]);
+   ("jsonEncoder.EncodeEntry", [BUse; BOwnerPut; BRet]);
+   ("consoleEncoder.EncodeEntry", [BUse; BRet]);
+   ("consoleEncoder.writeContext", [BUse; BFree; BOwnerPut]);
+   ("putJSONEncoder", [BFree]);
+   ("EntryCaller.FullPath", [BUse; BFree]);
+   ("EntryCaller.TrimmedPath", [BUse; BFree]);
+   ("Logger.check", [BUse; BFree]);
+   ("stacktrace.Take", [BUse; BFree])].
+Lemma own_facts_match_model : List.map (fun f => (of_fn f, of_events f)) own_facts = model_own_events.
+Proof. vm_compute. reflexivity. Qed.
+
+Lemma own_discipline : forall f, In f own_facts ->
+  (forall pre post, of_events f = (pre ++ BFree :: post)%list ->
+     ~ In BUse post /\ ~ In BFree post /\ ~ In BRet post) /\
+  (In BFree (of_events f) \/ In BRet (of_events f)).
+Proof.
+  intros f Hf. apply disc_ok_sound.
+  pose proof own_facts_ok as H. rewrite forallb_forall in H. apply H. exact Hf.
+Qed.
